@@ -4,7 +4,7 @@ Vocabulary.  r is a vector of bucket ids (r[e] = bucket of element e), DENSE whe
 Density is an exists-statement; it is carried by ghost witnesses: wit[b] is some element of bucket b, and `mate` is a
 second member of the moved element's bucket when the element is not alone.
 """
-from pyvc.types import Int, Real, Arr
+from pyvc.types import Int, Real, Arr, Bool
 
 F = "corankco/algorithms/bioconsert/bioconsert.py::"
 
@@ -43,6 +43,40 @@ def gen_move(rng, add):
         new_pos = rng.choice(cands) if cands else old_pos
     return dict(r=r, n=n, element=element, old_pos=old_pos, new_pos=new_pos, alone_in_old_bucket=alone,
                 maxb=maxb, wit=wit + [0, 0], mate=mates[0] if mates else 0)
+
+
+def gen_search(rng, add):
+    maxb = rng.randint(0, 5)
+    B = rng.randint(0, maxb)
+    n = maxb + 3 + rng.randint(0, 2)
+    vals = [-2.0, -0.5, -0.001953125, -0.0009765625, 0.0, 0.0009765625, 0.25, 1.0, 3.0]
+    arr = [rng.choice(vals) if rng.random() < 0.8 else 0.0 for _ in range(n)]
+    if rng.random() < 0.4:
+        arr = [abs(v) for v in arr]
+    if add:
+        return dict(bucket_elem=B, add=arr, max_id_bucket=maxb)
+    arr[B] = 0.0
+    return dict(bucket_elem=B, change=arr, max_id_bucket=maxb)
+
+
+def dyadic_table(rng, n):
+    """random mirror-consistent flattened n*n*3 cost table with dyadic entries"""
+    vals = [0.0, 0.25, 0.5, 1.0, 1.5, 2.0, 3.0]
+    tab = [0.0] * (3 * n * n)
+    for i in range(n):
+        for j in range(i + 1, n):
+            b, a, t = rng.choice(vals), rng.choice(vals), rng.choice(vals)
+            tab[3 * n * i + 3 * j: 3 * n * i + 3 * j + 3] = [b, a, t]
+            tab[3 * n * j + 3 * i: 3 * n * j + 3 * i + 3] = [a, b, t]
+    return tab
+
+
+def gen_delta(rng):
+    n = rng.randint(1, 6)
+    r, maxb, _wit = dense_vector(rng, n)
+    t = rng.randrange(n)
+    return dict(ranking=r, target_element=t, cost_matrix=dyadic_table(rng, n), bucket_elem=r[t],
+                change=[0.0] * (n + 2), add=[0.0] * (n + 3), n=n, maxb=maxb)
 
 
 def register(reg):
@@ -116,3 +150,153 @@ def register(reg):
         "           ite(b < new_pos, ite(b == old_pos, mate, wit[b]), ite(b == new_pos, element,"
         "               ite(b - 1 == old_pos, mate, wit[b - 1])))",
         dict(wit=Arr(Int), mate=Int, element=Int, old_pos=Int, new_pos=Int, alone=Int, b=Int), Int)
+
+    # ------------------------------------------------------------------------------------------------------------------
+    # prefix sums of the "difference arrays": cumr = sum over (B, x], cuml = sum over [x, B)
+    reg.spec("def cumr(c, B, x):\n    return 0.0 if x <= B else cumr(c, B, x - 1) + c[x]", dict(c=Arr(Real), B=Int, x=Int), Real)
+    reg.spec("def cuml(c, B, x):\n    return 0.0 if x >= B else cuml(c, B, x + 1) + c[x]", dict(c=Arr(Real), B=Int, x=Int), Real)
+
+    reg.contract(
+        F + "_search_to_change_bucket", props=["C08", "C09"],
+        params=dict(bucket_elem=Int, change=Arr(Real), max_id_bucket=Int), returns=Int,
+        requires={"B": "0 <= bucket_elem <= max_id_bucket", "len": "len(change) >= max_id_bucket + 2",
+                  "own_zero": "change[bucket_elem] == 0"},
+        modifies=["change"],
+        ensures={
+            "range": "result == -1 or (0 <= result <= max_id_bucket and result != bucket_elem)",
+            "hit_right": "implies(result > bucket_elem, change[result] == cumr(old(change), bucket_elem, result) "
+                         "and change[result] < -0.001)",
+            "hit_left": "implies(0 <= result < bucket_elem, change[result] == cuml(old(change), bucket_elem, result) "
+                        "and change[result] < -0.001)",
+            "miss_right": "implies(result == -1, forall(lambda x: cumr(old(change), bucket_elem, x) >= -0.001, "
+                          "bucket_elem + 1, max_id_bucket + 1))",
+            "miss_left": "implies(result == -1, forall(lambda x: cuml(old(change), bucket_elem, x) >= -0.001, "
+                         "0, bucket_elem))",
+        },
+        loops={
+            1: dict(inv={
+                "bounds": "bucket_elem + 1 <= i <= max_id_bucket + 1",
+                "prefix": "forall(lambda x: change[x] == cumr(old(change), bucket_elem, x), bucket_elem, i)",
+                "rest_r": "forall(lambda x: change[x] == old(change)[x], i, len(change))",
+                "rest_l": "forall(lambda x: change[x] == old(change)[x], 0, bucket_elem)",
+                "res": "res == -1 or (bucket_elem < res < i and change[res] < -0.001)",
+                "nohit": "implies(res == -1, forall(lambda x: cumr(old(change), bucket_elem, x) >= -0.001, "
+                         "bucket_elem + 1, i))",
+            }, variant="max_id_bucket + 1 - i"),
+            2: dict(inv={
+                "bounds": "-2 <= i <= bucket_elem - 2",
+                "suffix": "forall(lambda x: implies(x > i, change[x] == cuml(old(change), bucket_elem, x)), 0, bucket_elem)",
+                "rest": "forall(lambda x: implies(x <= i, change[x] == old(change)[x]), 0, bucket_elem)",
+                "res": "res == -1 or (i < res < bucket_elem and res >= 0 and change[res] < -0.001)",
+                "nohit": "implies(res == -1, forall(lambda x: implies(x > i, cuml(old(change), bucket_elem, x) >= -0.001), "
+                         "0, bucket_elem))",
+            }, variant="i + 2"),
+        },
+        gen=lambda rng: gen_search(rng, False),
+    )
+
+    reg.contract(
+        F + "_search_to_add_bucket", props=["C08", "C09"],
+        params=dict(bucket_elem=Int, add=Arr(Real), max_id_bucket=Int), returns=Int,
+        requires={"B": "0 <= bucket_elem <= max_id_bucket", "len": "len(add) >= max_id_bucket + 3"},
+        modifies=["add"],
+        ensures={
+            "range": "result == -1 or 0 <= result <= max_id_bucket + 1",
+            "hit_right": "implies(result > bucket_elem, add[result] == cumr(old(add), bucket_elem, result) "
+                         "and add[result] < -0.001)",
+            "hit_left": "implies(0 <= result <= bucket_elem, add[result] == cuml(old(add), bucket_elem + 1, result) "
+                        "and add[result] < -0.001)",
+            "miss_right": "implies(result == -1, forall(lambda x: cumr(old(add), bucket_elem, x) >= -0.001, "
+                          "bucket_elem + 1, max_id_bucket + 2))",
+            "miss_left": "implies(result == -1, forall(lambda x: cuml(old(add), bucket_elem + 1, x) >= -0.001, "
+                         "0, bucket_elem + 1))",
+        },
+        loops={
+            1: dict(inv={
+                "bounds": "bucket_elem + 2 <= i <= max_id_bucket + 2",
+                "prefix": "forall(lambda x: change_is_cumr(add, old(add), bucket_elem, x), bucket_elem + 1, i)",
+                "rest_r": "forall(lambda x: add[x] == old(add)[x], i, len(add))",
+                "rest_l": "forall(lambda x: add[x] == old(add)[x], 0, bucket_elem + 1)",
+                "res": "res == -1 or (bucket_elem < res < i and add[res] < -0.001)",
+                "nohit": "implies(res == -1, forall(lambda x: cumr(old(add), bucket_elem, x) >= -0.001, bucket_elem + 1, i))",
+            }, variant="max_id_bucket + 2 - i"),
+            2: dict(inv={
+                "bounds": "-1 <= i <= bucket_elem - 1",
+                "suffix": "forall(lambda x: implies(x > i, add[x] == cuml(old(add), bucket_elem + 1, x)), 0, bucket_elem + 1)",
+                "rest": "forall(lambda x: implies(x <= i, add[x] == old(add)[x]), 0, bucket_elem + 1)",
+                "res": "res == -1 or (i < res <= bucket_elem and res >= 0 and add[res] < -0.001)",
+                "nohit": "implies(res == -1, forall(lambda x: implies(x > i, cuml(old(add), bucket_elem + 1, x) >= -0.001), "
+                         "0, bucket_elem + 1))",
+            }, variant="i + 1"),
+        },
+        gen=lambda rng: gen_search(rng, True),
+    )
+    reg.spec("def change_is_cumr(a, a0, B, x):\n    return a[x] == cumr(a0, B, x)",
+             dict(a=Arr(Real), a0=Arr(Real), B=Int, x=Int), Bool)
+
+    # ------------------------------------------------------------------------------------------------------------------
+    # _compute_delta_costs: the two difference arrays in linear form (one summand per other element e2)
+    A9 = dict(r=Arr(Int), c=Arr(Real), t=Int, B=Int, n=Int, e2=Int, k=Int)
+    reg.spec("def ch(r, c, t, B, n, e2, k):\n"
+             "    return (ite(k == r[e2], c[3*n*t + 3*e2 + 2] - c[3*n*t + 3*e2], 0.0)"
+             "            + ite(k == r[e2] + 1, c[3*n*t + 3*e2 + 1] - c[3*n*t + 3*e2 + 2], 0.0)) if B < r[e2] else"
+             "           ((ite(k == r[e2], c[3*n*t + 3*e2 + 2] - c[3*n*t + 3*e2 + 1], 0.0)"
+             "             + ite(r[e2] != 0 and k == r[e2] - 1, c[3*n*t + 3*e2] - c[3*n*t + 3*e2 + 2], 0.0)) if B > r[e2] else 0.0)",
+             A9, Real)
+    reg.spec("def ad(r, c, t, B, n, e2, k):\n"
+             "    return ite(k == r[e2] + 1, c[3*n*t + 3*e2 + 1] - c[3*n*t + 3*e2], 0.0) if B < r[e2] else"
+             "           (ite(k == r[e2], c[3*n*t + 3*e2] - c[3*n*t + 3*e2 + 1], 0.0) if B > r[e2] else 0.0)",
+             A9, Real)
+    A9m = dict(r=Arr(Int), c=Arr(Real), t=Int, B=Int, n=Int, m=Int, k=Int)
+    reg.spec("def CH(r, c, t, B, n, m, k):\n    return 0.0 if m <= 0 else CH(r, c, t, B, n, m - 1, k) + ch(r, c, t, B, n, m - 1, k)",
+             A9m, Real)
+    reg.spec("def AD(r, c, t, B, n, m, k):\n    return 0.0 if m <= 0 else AD(r, c, t, B, n, m - 1, k) + ad(r, c, t, B, n, m - 1, k)",
+             A9m, Real)
+    A8 = dict(r=Arr(Int), c=Arr(Real), t=Int, B=Int, n=Int, m=Int, w=Int)
+    # TIE(.., m, w): sum over bucket mates e2 < m of cost cell w (0 before, 1 after, 2 tied) of the pair (t, e2)
+    reg.spec("def TIE(r, c, t, B, n, m, w):\n"
+             "    return 0.0 if m <= 0 else TIE(r, c, t, B, n, m - 1, w) + "
+             "ite(r[m - 1] == B and m - 1 != t, c[3*n*t + 3*(m - 1) + w], 0.0)", A8, Real)
+
+    reg.contract(
+        F + "_compute_delta_costs", props=["C08", "C09"],
+        params=dict(ranking=Arr(Int), target_element=Int, cost_matrix=Arr(Real), bucket_elem=Int, change=Arr(Real),
+                    add=Arr(Real), n=Int), returns=Int,
+        ghost=dict(maxb=Int),
+        requires={"len_r": "len(ranking) == n", "t": "0 <= target_element < n", "len_c": "len(cost_matrix) == 3 * n * n",
+                  "B": "bucket_elem == ranking[target_element]",
+                  "range": "forall(lambda j: 0 <= ranking[j] <= maxb, 0, n)",
+                  "len_change": "len(change) >= maxb + 2", "len_add": "len(add) >= maxb + 3",
+                  "nl": "n * target_element <= n * (n - 1) and n * target_element >= 0"},
+        modifies=["change", "add"],
+        ensures={
+            "alone01": "result == 0 or result == 1",
+            "alone": "iff(result == 1, forall(lambda j: implies(j != target_element, ranking[j] != bucket_elem), 0, n))",
+            "change_lin": "forall(lambda k: change[k] == old(change)[k] "
+                          "+ CH(ranking, cost_matrix, target_element, bucket_elem, n, n, k) "
+                          "+ ite(bucket_elem != 0 and k == bucket_elem - 1, "
+                          "      TIE(ranking, cost_matrix, target_element, bucket_elem, n, n, 0) "
+                          "      - TIE(ranking, cost_matrix, target_element, bucket_elem, n, n, 2), 0.0) "
+                          "+ ite(k == bucket_elem + 1, TIE(ranking, cost_matrix, target_element, bucket_elem, n, n, 1) "
+                          "      - TIE(ranking, cost_matrix, target_element, bucket_elem, n, n, 2), 0.0), 0, len(change))",
+            "add_lin": "forall(lambda k: add[k] == old(add)[k] "
+                       "+ AD(ranking, cost_matrix, target_element, bucket_elem, n, n, k) "
+                       "+ ite(k == bucket_elem, TIE(ranking, cost_matrix, target_element, bucket_elem, n, n, 0) "
+                       "      - TIE(ranking, cost_matrix, target_element, bucket_elem, n, n, 2), 0.0) "
+                       "+ ite(k == bucket_elem + 1, TIE(ranking, cost_matrix, target_element, bucket_elem, n, n, 1) "
+                       "      - TIE(ranking, cost_matrix, target_element, bucket_elem, n, n, 2), 0.0), 0, len(add))",
+        },
+        loops={1: dict(inv={
+            "pos": "pos == 3 * n * target_element + 3 * e2",
+            "change": "forall(lambda k: change[k] == old(change)[k] "
+                      "+ CH(ranking, cost_matrix, target_element, bucket_elem, n, e2, k), 0, len(change))",
+            "add": "forall(lambda k: add[k] == old(add)[k] "
+                   "+ AD(ranking, cost_matrix, target_element, bucket_elem, n, e2, k), 0, len(add))",
+            "tb": "tied_to_before == TIE(ranking, cost_matrix, target_element, bucket_elem, n, e2, 0)",
+            "ta": "tied_to_after == TIE(ranking, cost_matrix, target_element, bucket_elem, n, e2, 1)",
+            "tt": "tied_to_tied == TIE(ranking, cost_matrix, target_element, bucket_elem, n, e2, 2)",
+            "alone01": "alone == 0 or alone == 1",
+            "alone": "iff(alone == 1, forall(lambda j: implies(j != target_element, ranking[j] != bucket_elem), 0, e2))",
+        })},
+        gen=lambda rng: gen_delta(rng),
+    )
